@@ -64,6 +64,15 @@ impl G<'_> {
         if *t == Ty::Bool {
             return BigInt::from(self.ch.below(2));
         }
+        if *t == Ty::Felt && self.ch.chance(1, 4) {
+            // Field representatives of small negative numbers: P - m for m around the minima of
+            // the signed types (conversions to signed types accept exactly m <= 2^(bits-1)).
+            self.boundary = true;
+            let k = *self.ch.pick(&[0u32, 1, 7, 15, 31, 63, 127]);
+            let m = (BigInt::one() << k) + BigInt::from(self.ch.below(3) as i32 - 1);
+            let m = if m < BigInt::one() { BigInt::one() } else { m };
+            return max + BigInt::one() - m;
+        }
         match self.ch.weighted(&[4, 4, 2, 1]) {
             0 => {
                 let v = BigInt::from(self.ch.below(10));
